@@ -97,7 +97,7 @@ def knot_seq(rng, n):
         return style, [[C.bits(a), C.bits(b)] for a, b in zip(xs, ys)]
     ys = []
     y = rng.uniform(-3, 3)
-    s_lin = rng.choice([0.5, -2.0, 1.0 / 3.0, 1e-8, 3.0])
+    s_lin = rng.choice([0.5, -2.0, 1.0 / 3.0, 1e-8, 3.0, 49.0, 12.25, 98.0, float(rng.randint(40, 120)), rng.uniform(-60, 60)])
     for i, x in enumerate(xs):
         if style == "monotone":
             y += rng.uniform(0.0, 2.0)
@@ -207,7 +207,8 @@ class P(Prop):
             "(non-finite output is a violation when the documented construction is finite in binary64); "
             "bit-exact model vs crate incl. the kernels f_dx / segment on their own; exact-rational oracle: end verbatim, "
             "interpolation, knot slopes = harmonic mean / end rule, derivative continuity, all within 256*2^-53*(magnitudes*"
-            "(1+|x|/dx)^3). non-trivial = >= 4 knots and data not collinear; distinct by input")
+            "(1+|x|/dx)^3). non-trivial = >= 4 knots and data not collinear; distinct by input"
+            " Also: adjacent slope ratios 2^27..2^52, abscissae -0.0 / subnormal, tables of 2000..40001 (thorough ..262145) knots built and checked inside the harness, prefix pairs of tables in consecutive calls.")
     TRUSTED = ["translator rs2coq", "skeleton PwModel.constrained_spline (iterator plumbing) tied by correspondence"]
     ASSUMPTIONS = ["IEEE-754 arithmetic", "the deviation bound of the floating-point construction is checked by the exact oracle (a test), the theorems are over the reals"]
     CHECK_SHAPE = False
@@ -226,6 +227,17 @@ class P(Prop):
                 x += rng.choice([1.0, 0.5, 2.0])
                 ks.append([C.bits(x), C.bits(float(i % 4) * 1.5 + 0.25 * i if i % 3 else float(i))])
             out.append(dict(op="spline", knots=ks, meta={"class": "spline/count"}))
+        # tables far longer than a case file can carry: built and checked inside the harness (knot slopes against the harmonic mean)
+        for nbig in (2000, 32767, 32768, 32769, 40001) if tier == "quick" else (2000, 32767, 32768, 32769, 40001, 65536, 65537, 100003, 262145):
+            out.append(dict(op="spline_big", n=nbig, meta={"class": "spline/big"}))
+        # the same table again with knots appended / dropped, one call right after the other (no state may survive a call)
+        for _ in range(4 if tier == "quick" else 40):
+            style, ks = knot_seq(rng, rng.randint(5, 9))
+            if style in ("huge",):
+                continue
+            out.append(dict(op="spline", knots=ks, meta={"class": "spline/prefix_pair"}))
+            out.append(dict(op="spline", knots=ks[:rng.randint(3, len(ks) - 1)], meta={"class": "spline/prefix_pair"}))
+            out.append(dict(op="spline", knots=ks, meta={"class": "spline/prefix_pair"}))
         for nk in (0, 1, 2):
             style, ks = knot_seq(rng, 3)
             out.append(dict(op="spline", knots=ks[:nk], meta={"class": "spline/rejected"}))
@@ -261,10 +273,21 @@ class P(Prop):
     def coq_term(self, case, h):
         if case["op"] == "k":
             return K.kernel_term(case, h)
+        if case["op"] == "spline_big":
+            return None
         return "run_spline [] [] %s %s %s %s %s" % (C.kname("spline::f_dx"), C.kname("spline::f_x0"), C.kname("spline::f_xn"),
                                                     C.kname("spline::segment"), C.zlistlist(case["knots"]))
 
     def oracle(self, case, h):
+        if case["op"] == "spline_big":
+            if h["r"] == "PANIC":
+                return "constrained_spline panicked on %d admissible knots: %s" % (case["n"], h.get("msg"))
+            if h["r"][0] != case["n"] - 1:
+                return "constrained_spline returned %d cubics for %d knots" % (h["r"][0], case["n"])
+            if h["r"][1] != 0xFFFFFFFFFFFFFFFF:
+                return ("%d knots (x = i/2, strictly increasing ordinates, every secant slope about 1): the derivative of the cubics at interior knot %d "
+                        "is not the harmonic mean of the adjacent secant slopes" % (case["n"], h["r"][1]))
+            return None
         if case["op"] != "spline":
             return None
         ks = case["knots"]
@@ -323,6 +346,8 @@ class P(Prop):
         return None
 
     def nontrivial_key(self, case, h):
+        if case["op"] == "spline_big":
+            return None
         if case["op"] == "spline" and (len(case["knots"]) < 4 or "collinear" == case["meta"]["class"].split("/")[1]):
             return None
         return super().nontrivial_key(case, h)
